@@ -134,6 +134,14 @@ def expandTypes (ts : List Ty) : List Ty := ts.foldl (fun acc t => visitTy t acc
 K compares `get_types` as a set and `expand_types` on explicit lists exactly) -/
 def typesO (t : Term) : List Ty := expandTypes (typesWalk t)
 
+/-- the base-type filter of `get_types(…, custom_only=True)`: not Bool/Int/Real/BV/Array/String -/
+def keptByCustomOnly : Ty → Bool
+  | .bool | .int | .real | .str | .bv _ | .array _ _ => false
+  | .custom _ => true
+
+/-- `get_types(formula, custom_only=True)`: the expanded list, filtered (order kept) -/
+def typesCustomO (t : Term) : List Ty := (typesO t).filter keptByCustomOnly
+
 /-! ## SizeOracle (oracles.py:43-134) -/
 
 inductive Measure
